@@ -65,6 +65,8 @@ build_noasm() {
 build_sched() {
   copy_src "$SCRATCH/simdjson_i"
   (cd "$VERIF" && go build -o "$SCRATCH/vinstr" ./cmd/vinstr) || die "vinstr build failed"
+  # run-time knob for ParseNDStream's 10 MiB chunk constant (C09); absent pattern = real constant only
+  sed -i 's/^\tconst tmpSize = 10 << 20$/\ttmpSize := VerifTmpSize/' "$SCRATCH/simdjson_i/simdjson_amd64.go"
   "$SCRATCH/vinstr" "$SCRATCH/simdjson_i" > "$SCRATCH/vinstr.log" 2>&1 || { cat "$SCRATCH/vinstr.log"; die "instrumentation failed"; }
   (cd "$SCRATCH/simdjson_i" && go mod edit -require=verif@v0.0.0) || die "go mod edit failed"
   make_harness_mod "$SCRATCH/hs" "$SCRATCH/simdjson_i"
@@ -90,7 +92,7 @@ case "$cmd" in
     case "$(grep -o '"property": *"C[0-9]*"' "$2" | grep -o 'C[0-9]*')" in
       C07|C09|C20)
         build_sched
-        GOMAXPROCS=2 "$SCRATCH/vharness_i" replay "$2"
+        GOMAXPROCS=1 "$SCRATCH/vharness_i" replay "$2"
         exit $?;;
     esac
     build_plain
@@ -99,7 +101,7 @@ case "$cmd" in
     ;;
   C07|C09|C20)
     build_sched
-    GOMAXPROCS=2 "$SCRATCH/vharness_i" "$cmd" "$tier"
+    GOMAXPROCS=${VERIF_GOMAXPROCS:-1} "$SCRATCH/vharness_i" "$cmd" "$tier"
     exit $?
     ;;
   C11)
